@@ -3,6 +3,7 @@ package main
 // Evaluation of contract expressions in a symbolic state; contract application at call sites; loop invariants.
 
 import (
+	"crypto/sha256"
 	"strconv"
 	"sync"
 	"fmt"
@@ -788,6 +789,7 @@ var specUFs = map[string]ufSig{
 	"accFromBech32": {[]string{"String"}, "String"},
 	"valFromBech32": {[]string{"String"}, "String"},
 	"bech32ok":   {[]string{"String"}, "Bool"},
+	"bech32valok": {[]string{"String"}, "Bool"},
 	"hexaddr":    {[]string{"String"}, "String"}, // common.HexToAddress
 	"addrhex":    {[]string{"String"}, "String"}, // Address.Hex()
 	"ishexaddr":  {[]string{"String"}, "Bool"},
@@ -998,6 +1000,37 @@ func (c *CEnv) callFn(e *Expr) cv {
 		}
 		v := c.eval(e.Args[1])
 		return cv{V: app("OptS", "some", c.x.encodeValue(c.curState(), fam, v))}
+	case "hexenc":
+		c.x.e.declareFun("uf_hexenc", "(String) String")
+		return cv{V: app(SString, "uf_hexenc", c.term(e.Args[0]))}
+	case "fixw":
+		c.x.e.declareFun("fixw", "(String Int) String")
+		c.x.e.addAxiom("(assert (forall ((s String) (n Int)) (! (= (fixw s n) (str.substr (str.++ s (zeros n)) 0 n)) :pattern ((fixw s n)))))")
+		return cv{V: app(SString, "fixw", c.term(e.Args[0]), c.term(e.Args[1]))}
+	case "sha256lit":
+		// sha256lit("text"): the 32 bytes of sha256 of a literal
+		if e.Args[0].Op != "str" {
+			c.fail("sha256lit needs a string literal")
+		}
+		h := sha256.Sum256([]byte(e.Args[0].Val))
+		return cv{V: T{S: smtStrLit(h[:]), So: SString, Segs: []Seg{{Kind: "const", Lit: h[:], S: smtStrLit(h[:])}}}}
+	case "maphas":
+		m := c.eval(e.Args[0])
+		k := c.term(e.Args[1])
+		var mt T
+		switch v := m.V.(type) {
+		case *MapV:
+			st := c.curState()
+			if _, live := st.Heap[v.Obj]; !live {
+				st = c.st
+			}
+			mt = st.Heap[v.Obj].(T)
+		case T:
+			mt = v
+		default:
+			c.fail("maphas needs a map, got %T", m.V)
+		}
+		return cv{V: T{S: fmt.Sprintf("(select (has_%s %s) %s)", mt.So, mt.S, k.S), So: SBool}}
 	case "mapget":
 		// mapget(m, k): Go's m[k] on a map-sorted term (zero value of an integer element for absent keys)
 		m := c.eval(e.Args[0])
@@ -1277,6 +1310,12 @@ func (x *Exec) useSpecAxioms() {
 				// Map_<K>_<V> over basic sorts
 				if parts := strings.SplitN(so[4:], "_", 2); len(parts) == 2 {
 					x.e.mapSort(parts[0], parts[1])
+					continue
+				}
+			}
+			if strings.HasPrefix(so, "S_types_") {
+				if t := x.e.tryMsgType(so[len("S_types_"):]); t != nil {
+					x.e.sortOf(t)
 					continue
 				}
 			}
